@@ -680,3 +680,21 @@ Proof.
   specialize (Hr fuel [] r0 Hf idle_r0). rewrite app_nil_r in Hr. exact Hr.
 Qed.
 
+(* ---------- non-vacuity ---------- *)
+From PVGen Require Import Proofs.SizeP.
+
+Example gen_roundtrip_nonvacuous :
+  wf_schema S0 = true /\ has_type S0 (TyRef 1) v0 = true /\
+  fill_defaults S0 (TyRef 1) v0
+    = GStruct [(1, GBool true); (2, GI32 7); (5, GList [GBytes [x61]; GBytes []])] [] /\
+  (forall p, exists b, gen_encode S0 p BContig (TyRef 1) v0 = Ok b /\
+     gen_decode_top S0 p (TyRef 1) b = Ok (fill_defaults S0 (TyRef 1) v0, [])) /\
+  wf_schema S1 = true /\ has_type S1 (TyRef 2) v1 = true /\
+  (forall p, exists b, gen_encode S1 p (BLinked true) (TyRef 2) v1 = Ok b /\
+     gen_decode_top S1 p (TyRef 2) b = Ok (fill_defaults S1 (TyRef 2) v1, [])).
+Proof.
+  split; [vm_compute; reflexivity|]. split; [vm_compute; reflexivity|]. split; [vm_compute; reflexivity|].
+  split; [intros p; destruct p; (eexists; split; [vm_compute; reflexivity|]); vm_compute; reflexivity|].
+  split; [vm_compute; reflexivity|]. split; [vm_compute; reflexivity|].
+  intros p; destruct p; (eexists; split; [vm_compute; reflexivity|]); vm_compute; reflexivity.
+Qed.
